@@ -261,6 +261,13 @@ def enumerate_cases(tier):
         "hermitian-only-2": [H1, H1b],
         "lin": [{"op": "sum", "operands": [{"op": "s_prod", "c": 0.5, "base": {"op": "PauliZ", "w": [0]}}, {"op": "s_prod", "c": -1.2, "base": {"op": "PauliX", "w": [1]}}]}],
     }
+    # a controlled global phase is a physical relative phase: every method has to differentiate it (not treat it like GlobalPhase)
+    cgp = [{"op": "Hadamard", "p": [], "w": [0]}, {"op": "ctrl", "cw": [0], "cv": [1], "base": {"op": "GlobalPhase", "p": [["arg", 0, None]], "w": []}},
+           {"op": "RY", "p": [["arg", 1, None]], "w": [0]}, {"op": "CNOT", "p": [], "w": [1, 0]}]
+    for m, iface in (("parameter-shift", "autograd"), ("parameter-shift", "jax"), ("backprop", "autograd"), ("adjoint", "autograd"), ("finite-diff", "torch")):
+        yield {"prog": {"args": args, "wires": [0, 1], "ops": cgp, "meas": [{"mp": "expval", "obs": {"op": "PauliX", "w": [0]}},
+                                                                             {"mp": "expval", "obs": {"op": "PauliY", "w": [0]}}]},
+               "cfg": {"iface": iface, "method": m, "gk": {}, "goe": "best", "dvjp": False, "post": "stack" if iface == "autograd" else "raw", "jac": "rev", "devwires": "none"}}
     for oname, ol in obs.items():
         for iface in ("autograd", "jax", "torch"):
             for m, dvjp in (("adjoint", True), ("adjoint", False), ("backprop", True)):
